@@ -237,7 +237,7 @@ func c13NormHDR(b []byte) string {
 	return strings.Join(out, "\n")
 }
 
-const c13HistType = "hist[0,1ms,6ms,1s]"
+const c13HistType = "hist[0,5ms,7ms,1s]" // several latencies of the pool sit exactly on a bound
 
 type c13Outputs struct {
 	json    map[string]any
